@@ -59,6 +59,9 @@ pub fn gen_world(rng: &mut Rng, p: &GenParams) -> WorldSpec {
         } else if p.prefix_names && prefix_used < prefix_pool.len() && rng.chance(70, 100) {
             prefix_used += 1;
             prefix_pool[prefix_used - 1].to_string()
+        } else if rng.chance(1, 12) {
+            // a long directory name with multi-byte characters at every offset a fixed byte index could hit
+            format!("t{:02}-{}données-日本語-каталог-проекта-очень-длинное-имя", i, "x".repeat(rng.below(4)))
         } else {
             format!("t{:02}", i)
         };
@@ -151,6 +154,7 @@ pub fn gen_world(rng: &mut Rng, p: &GenParams) -> WorldSpec {
         max_retained_runs: 3,
         gitignore: vec![],
         git: true,
+        lock_host: None,
     }
 }
 
